@@ -18,7 +18,7 @@ import (
 type c16Op struct {
 	Op   string `json:"op"`             // auth | accept | accept-replace | reject | poll | advance
 	Flow int    `json:"flow"`           // index of the device flow
-	By   string `json:"by,omitempty"`   // poll: right | wrong | wrong+cid
+	By   string `json:"by,omitempty"`   // poll: right | wrong | wrong+cid | wrong-public
 	Code string `json:"code,omitempty"` // poll: genuine | forged-key | forged-usersig
 }
 
@@ -175,6 +175,8 @@ func c16Run(c c16Case, res *WRes, check bool) (outcomes []string) {
 			case "wrong+cid":
 				auth = w.AuthFor("B")
 				auth.Extra = url.Values{"client_id": {"A"}}
+			case "wrong-public":
+				auth = w.AuthFor("P") // a public client that did not start the flow
 			}
 			o := w.Token(form, auth)
 			res.Trans++
@@ -270,7 +272,7 @@ func c16Alphabet(nflows, maxFlows int) []c16Op {
 	}
 	for f := 0; f < nflows; f++ {
 		ops = append(ops, c16Op{Op: "accept", Flow: f}, c16Op{Op: "reject", Flow: f}, c16Op{Op: "accept-replace", Flow: f})
-		ops = append(ops, c16Op{Op: "poll", Flow: f, By: "right", Code: "genuine"}, c16Op{Op: "poll", Flow: f, By: "wrong", Code: "genuine"}, c16Op{Op: "poll", Flow: f, By: "wrong+cid", Code: "genuine"},
+		ops = append(ops, c16Op{Op: "poll", Flow: f, By: "right", Code: "genuine"}, c16Op{Op: "poll", Flow: f, By: "wrong", Code: "genuine"}, c16Op{Op: "poll", Flow: f, By: "wrong+cid", Code: "genuine"}, c16Op{Op: "poll", Flow: f, By: "wrong-public", Code: "genuine"},
 			c16Op{Op: "poll", Flow: f, By: "right", Code: "forged-key"}, c16Op{Op: "poll", Flow: f, By: "right", Code: "forged-usersig"})
 	}
 	if nflows > 0 {
@@ -412,7 +414,7 @@ func init() {
 			}
 		}
 		r.Bounds = map[string]any{"depth_one_flow": d1, "depth_two_flows": d2, "stores": []string{"reference MemoryStore", "contract-following (keeps invalidated code, answers ErrInvalidatedDeviceCode + request)"},
-			"alphabet": "device_auth; accept | accept-with-replaced-session | reject (flow); poll(flow, right|wrong|wrong+body-client_id, genuine|forged-random-part|forged-with-user-code-signature); advance(past lifetime)"}
+			"alphabet": "device_auth; accept | accept-with-replaced-session | reject (flow); poll(flow, right|wrong|wrong+body-client_id|wrong-public-client, genuine|forged-random-part|forged-with-user-code-signature); advance(past lifetime)"}
 		r.Rule = "every operation sequence up to the depth (depth-first, each executed from scratch on a fresh provider) with a lock-step model of each flow (decision, expiry, consumed); a two-flow history that never starts the second flow is not repeated; distinct = distinct (store, sequence, outcome vector)"
 		r.Assumptions = []string{"error class is pinned only where exactly one clause of the statement applies (overlaps are don't-care, tokens are refused in all of them)", "user-code entropy relies on ory/x randx whose reader cannot be substituted; distinctness is checked per history"}
 		res := r.Pool.Do("c16", jobs, r.Deadline)
